@@ -277,7 +277,7 @@ macro_rules! c07_write_case {
         if $t1 {
             model = model.transpose();
         }
-        $crate::witness!(h < 2 || w < 2 || (model.h >= 1 && model.w >= 2), "non-trivial window");
+        $crate::witness!(h < 2 || w < 2 || (model.h >= 1 && model.w >= 1), "non-empty window");
         let ins_pos = Position::new($crate::nd::range_usize(0, MAXD), $crate::nd::range_usize(0, MAXD));
         {
             if $t0 && $t1 {
